@@ -248,7 +248,9 @@ func (a *Args) String() string {
 		}
 	}
 	if a.Elided {
-		v = append(v, "...")
+		// Force a copy: v may be a.Processed itself, and appending in place would
+		// write into its spare capacity, which is shared with concurrent callers.
+		v = append(v[:len(v):len(v)], "...")
 	}
 	return strings.Join(v, ", ")
 }
